@@ -4,4 +4,5 @@ import KcpVerif.Props.C20
 import KcpVerif.Model.Sched
 import KcpVerif.Lemmas.Sched
 import KcpVerif.Lemmas.SchedSource
+import KcpVerif.Lemmas.SchedLive
 import KcpVerif.Props.C17
